@@ -154,6 +154,10 @@ class NaiveServer:
             return b"some data" + tok + b"more" + tok
         if code == 18:
             return b"STAT pid 123\r\nSTAT version 1.6\r\nSTAT empty\r\nITEM a [1 b; 2 s]\r\nEND\r\n"
+        if code == 23:
+            return b"OK\r\n"
+        if code == 24:
+            return b"ERROR: shutdown not enabled\r\n"       # or nothing at all: a server that shuts down just closes
         return None
 
 
@@ -175,7 +179,7 @@ def chunk_choices(n, rng, mode=None):
 
 
 def random_op(rng, keys=KEYS, values=VALUES):
-    code = rng.choice([0, 0, 0, 1, 2, 3, 3, 4, 5, 6, 7, 7, 8, 9, 10, 11, 12, 13, 14, 15, 16, 17, 18, 19])
+    code = rng.choice([0, 0, 0, 1, 2, 3, 3, 4, 5, 6, 7, 7, 8, 9, 10, 11, 12, 13, 14, 15, 16, 17, 18, 19, 23, 24])
     k = rng.choice(keys[:3] if rng.random() < 0.93 else keys)
     v = rng.choice(values[:6] if rng.random() < 0.9 else values)
     n = rng.choice([None, None, True, False])
@@ -216,6 +220,10 @@ def random_op(rng, keys=KEYS, values=VALUES):
         return (17,)
     if code == 18:
         return (18, rng.choice([[], [b"items"], [b"bad arg"]]))
+    if code == 23:
+        return (23, rng.choice([64, 1024, 0, True, "64", None, 2 ** 70]))
+    if code == 24:
+        return (24, rng.choice([False, True, 0, 1]))
     return (19,)
 
 
